@@ -7,6 +7,7 @@ import (
 	"fmt"
 	"os"
 	"sort"
+	"strconv"
 	"strings"
 	"time"
 
@@ -181,6 +182,13 @@ func init() {
 			}
 			var expected []c11Obs
 			respNote := ""
+			// model tie (hrc=1): one reqconf line per connection; for line j: the bodies of the connection's well-formed
+			// requests, the indices of the requests that must be dispatched, and the write-deadline flag seen at the first
+			// write after each dispatch
+			var lines []string
+			var mBodies [][]int
+			var mDisp [][]int
+			var mWdl [][]string
 			expectOf := func(q c11Req) c11Obs {
 				e := c11Obs{method: q.method, uri: q.uri(), body: q.body, cookies: sortedKV(q.cookies), userValues: 0, respDefault: "200|\"\"|1|false"}
 				var qa [][2]string
@@ -224,6 +232,7 @@ func init() {
 				nonDispatchResponses := 0
 				responsesSoFar := 0
 				var dispReqs []c11Req // the requests of this connection that must be dispatched, in order
+				var dispIdx []int
 				for i, q := range conn {
 					rejected := q.expect && (cfg.Continue == "reject" || cfg.Continue == "expect417")
 					if q.malformed {
@@ -244,6 +253,7 @@ func init() {
 					}
 					expected = append(expected, expectOf(q))
 					dispReqs = append(dispReqs, q)
+					dispIdx = append(dispIdx, i)
 					if q.special == "hj" || q.special == "close" || (cfg.MaxReqs > 0 && i+1 >= cfg.MaxReqs) {
 						break
 					}
@@ -252,6 +262,34 @@ func init() {
 				for _, q := range conn {
 					if q.special == "hj" {
 						hijacked = true
+					}
+				}
+				if cfg.HeaderRecv {
+					var confs [][]byte
+					var bl []int
+					for _, q := range conn {
+						if q.malformed {
+							break
+						}
+						confs = append(confs, B(fmt.Sprintf("%d,%d,%d", q.confInt("rt"), q.confInt("wt"), q.confInt("mb"))))
+						bl = append(bl, len(q.body))
+					}
+					if len(confs) > 0 {
+						lines = append(lines, Line("reqconf", append([][]byte{B("1"), N(0), N(0)}, confs...)...))
+						var wd []string
+						owner := -1
+						for _, e := range res.Trace.Events {
+							switch e.Kind {
+							case "dispatch":
+								owner = e.N
+							case "write":
+								if owner >= 0 {
+									wd = append(wd, map[bool]string{true: "1", false: "0"}[e.S == "wdl"])
+									owner = -1
+								}
+							}
+						}
+						mBodies, mDisp, mWdl = append(mBodies, bl), append(mDisp, dispIdx), append(mWdl, wd)
 					}
 				}
 				if cfg.HeaderRecv && respNote == "" {
@@ -285,36 +323,73 @@ func init() {
 			}
 			impl := render(obs)
 			want := render(expected)
-			return &Case{Impl: impl, Nontrivial: len(obs) >= 2, Tags: []string{"history", fmt.Sprintf("dispatches=%d", min(len(obs), 9))},
-				Judge: func([]string) Verdict {
-					if respNote != "" {
-						return Verdict{VSpec, "response-without-handler-call", fmt.Sprintf("cfg=%q: %s", a[0], respNote)}
+			native := func() Verdict {
+				if respNote != "" {
+					return Verdict{VSpec, "response-without-handler-call", fmt.Sprintf("cfg=%q: %s", a[0], respNote)}
+				}
+				if impl == want {
+					return Ok()
+				}
+				key := "handler-saw-foreign-state"
+				for i := range obs {
+					if i >= len(expected) {
+						key = "unexpected-dispatch"
+						break
 					}
-					if impl == want {
-						return Ok()
-					}
-					key := "handler-saw-foreign-state"
-					for i := range obs {
-						if i >= len(expected) {
-							key = "unexpected-dispatch"
-							break
+					if obs[i] != expected[i] {
+						switch {
+						case obs[i].userValues != 0:
+							key = "user-values-leaked"
+						case obs[i].respDefault != expected[i].respDefault:
+							key = "response-not-fresh"
+						case obs[i].hdrs != expected[i].hdrs || obs[i].cookies != expected[i].cookies:
+							key = "headers-leaked"
 						}
-						if obs[i] != expected[i] {
-							switch {
-							case obs[i].userValues != 0:
-								key = "user-values-leaked"
-							case obs[i].respDefault != expected[i].respDefault:
-								key = "response-not-fresh"
-							case obs[i].hdrs != expected[i].hdrs || obs[i].cookies != expected[i].cookies:
-								key = "headers-leaked"
+						break
+					}
+				}
+				if len(obs) < len(expected) {
+					key = "request-not-dispatched"
+				}
+				return Verdict{VSpec, key, fmt.Sprintf("cfg=%q history=%q: handler saw %s, expected %s", a[0], bytes.Join(a[1:], []byte(" ")), impl, want)}
+			}
+			return &Case{Lines: lines, Impl: impl, Nontrivial: len(obs) >= 2, Tags: []string{"history", fmt.Sprintf("dispatches=%d", min(len(obs), 9)), fmt.Sprintf("reqconf-model-lines=%d", min(len(lines), 3))},
+				Judge: func(replies []string) Verdict {
+					if v := native(); v.Kind != VOk {
+						return v
+					}
+					// correspondence with the Lean model of the per-request configuration (Model/ReqConf.lean): every request that
+					// was dispatched fits the model's limit for it and was answered under the model's write deadline; the request
+					// after the last dispatched one, if rejected by size, exceeds the model's limit; nobody inherits a read deadline
+					for j, rep := range replies {
+						if rep == "no-driver" {
+							continue
+						}
+						per := strings.Fields(rep)
+						for ri, p := range per {
+							f := strings.Split(p, ":")
+							if len(f) != 3 || ri >= len(mBodies[j]) {
+								return Verdict{VCorr, "reqconf-reply", fmt.Sprintf("cfg=%q: driver reply %q", a[0], rep)}
 							}
-							break
+							if f[2] == "1" {
+								return Verdict{VCorr, "reqconf-inherited-read-deadline", fmt.Sprintf("cfg=%q connection #%d: the model has request #%d awaited under an earlier request's read deadline (%s)", a[0], j, ri, rep)}
+							}
+						}
+						for di, idx := range mDisp[j] {
+							if idx >= len(per) {
+								break
+							}
+							f := strings.Split(per[idx], ":")
+							limit, _ := strconv.Atoi(f[0])
+							if mBodies[j][idx] > limit {
+								return Verdict{VCorr, "reqconf-limit", fmt.Sprintf("cfg=%q connection #%d request #%d: dispatched with a %d-byte body, the model's limit for it is %d (%s)", a[0], j, idx, mBodies[j][idx], limit, rep)}
+							}
+							if di < len(mWdl[j]) && mWdl[j][di] != f[1] {
+								return Verdict{VCorr, "reqconf-write-deadline", fmt.Sprintf("cfg=%q connection #%d request #%d: write deadline in force at its response=%s, model %s (%s)", a[0], j, idx, mWdl[j][di], f[1], rep)}
+							}
 						}
 					}
-					if len(obs) < len(expected) {
-						key = "request-not-dispatched"
-					}
-					return Verdict{VSpec, key, fmt.Sprintf("cfg=%q history=%q: handler saw %s, expected %s", a[0], bytes.Join(a[1:], []byte(" ")), impl, want)}
+					return Ok()
 				}}
 		},
 		Gen: func(r *Rand, tier string, emit func(string, ...[]byte)) {
